@@ -84,13 +84,17 @@ def run_case(case: dict) -> CaseResult:
     viol = res.violations
     classes: set[str] = set()
 
+    latest_attempt = [-1]
+
     def on_new_conn(idx: int):
+        latest_attempt[0] = idx
         out = plan[min(idx, len(plan) - 1)]
         kind = out[0]
         dev.auto = {1, 3, 5, 7, 9, 11}
         dev.name = "dev"
         dev.invalid_password = False
         dev.on_frame = None
+        dev.hello_trailer_msgs = []
         env.dns["dev.example.com"] = ("ok", ["10.0.0.9"], D)
         env.dns["dev.local"] = env.dns["dev.local."] = env.dns["dev"] = ("error", D)
         # (addr "mdns": every attempt looks the name up through the client's zeroconf manager -- the one the reconnect
@@ -130,6 +134,23 @@ def run_case(case: dict) -> CaseResult:
             dev.on_frame = onf
         elif kind == "silent":
             dev.auto = set()
+        elif kind == "goodbye":
+            # the device accepts the login and says goodbye in the same breath (about to reboot): DisconnectRequest in
+            # the chunk of the hello/login answers, the socket closed by the device a little later.  No session was
+            # established: a failed attempt
+            from aioesphomeapi import api_pb2 as pb
+
+            dev.hello_trailer_msgs = [pb.DisconnectRequest()]
+
+            def close_later(my=idx):
+                s_ = dev.session
+                if s_ is not None and latest_attempt[0] == my and len(dev.sessions) - 1 == my_sess[0] and not s_.transport.closing:
+                    # (whoever still holds this connection was told, with the login answer, that the device is leaving)
+                    env.log("end_injected", how="discreq")
+                    s_.transport.feed_eof()
+
+            my_sess = [len(dev.sessions)]
+            env.loop.sim_after(20 * D, close_later)
         env.log("attempt", idx=idx, plan=kind)
 
     # hook: called by Env.new_conn_id through the trace (conn_new is logged first)
@@ -609,7 +630,7 @@ def judge(env, world, case, viol, classes) -> None:
 
 
 # ------------------------------------------------------------------ generators
-FAILS = [["resolve_error"], ["refuse", 2], ["refuse", 64], ["garbage"], ["badname"], ["badauth"], ["reqenc"], ["silent"], ["tcp_hang"]]
+FAILS = [["resolve_error"], ["refuse", 2], ["refuse", 64], ["garbage"], ["badname"], ["badauth"], ["reqenc"], ["silent"], ["tcp_hang"], ["goodbye"]]
 QUICK_FAILS = [["resolve_error"], ["refuse", 2], ["refuse", 64], ["garbage"], ["badname"]]
 
 
@@ -727,7 +748,7 @@ def enumerated(tier):
     yield from _derived_name_cases()
     yield from _mdns_addr_cases()
     # exact back-off ladder: k failures then success, for every failure kind
-    for kind in (["refuse", 2], ["resolve_error"], ["garbage"], ["badname"]):
+    for kind in (["refuse", 2], ["resolve_error"], ["garbage"], ["badname"], ["goodbye"]):
         for k in range(1, 9):
             yield {"named": True, "addr": "ip", "K": 4.0, "plan": [kind] * k + [["ok"]], "events": [{"t": 0, "do": "start"}], "horizon": 260}
     # auth errors: 60 s
